@@ -31,6 +31,14 @@ type c01Form struct {
 	run  func(db *gorm.DB, x, y, z int) (*gorm.Statement, []interface{})
 }
 
+// emptyListWant: an empty slice becomes NULL - either the literal or one placeholder bound to nil
+func emptyListWant(st *gorm.Statement, x int) []interface{} {
+	if indexStr(st.SQL.String(), "(NULL)") >= 0 {
+		return []interface{}{x}
+	}
+	return []interface{}{nil, x}
+}
+
 func c01Forms() []c01Form {
 	find := func(db *gorm.DB) *gorm.Statement { var out []map[string]interface{}; return db.Find(&out).Statement }
 	return []c01Form{
@@ -42,10 +50,17 @@ func c01Forms() []c01Form {
 		}},
 		{"in-empty-slice", func(db *gorm.DB, x, y, z int) (*gorm.Statement, []interface{}) {
 			st := find(db.Table("t").Where("a IN (?)", []int{}).Where("b = ?", x))
-			if len(st.Vars) == 2 {
-				return st, []interface{}{nil, x} // IN (?) bound to NULL
-			}
-			return st, []interface{}{x} // IN (NULL)
+			return st, emptyListWant(st, x)
+		}},
+		// the same through the named-expression builder (raw Joins; Raw with '@' in the text)
+		{"in-empty-slice-raw-join", func(db *gorm.DB, x, y, z int) (*gorm.Statement, []interface{}) {
+			st := find(db.Table("t").Joins("JOIN u ON u.a NOT IN (?) AND u.b = ?", []int{}, x))
+			return st, emptyListWant(st, x)
+		}},
+		{"in-empty-slice-raw-at", func(db *gorm.DB, x, y, z int) (*gorm.Statement, []interface{}) {
+			var out []map[string]interface{}
+			st := db.Raw("SELECT * FROM t WHERE mail <> 'a@b' AND a IN (?) AND b = ?", []string{}, x).Scan(&out).Statement
+			return st, emptyListWant(st, x)
 		}},
 		{"nested-interface-slice", func(db *gorm.DB, x, y, z int) (*gorm.Statement, []interface{}) {
 			return find(db.Table("t").Where("(a, b) IN ?", [][]interface{}{{x, y}, {z, x}})), []interface{}{x, y, z, x}
